@@ -29,10 +29,13 @@ func (r *Rand) Intn(n int) int {
 	}
 	return int(r.U64() % uint64(n))
 }
-func (r *Rand) Bool() bool         { return r.U64()&1 == 1 }
-func (r *Rand) Chance(p int) bool  { return r.Intn(100) < p }
-func (r *Rand) Range(lo, hi int) int { return lo + r.Intn(hi-lo+1) }
+func (r *Rand) Bool() bool              { return r.U64()&1 == 1 }
+func (r *Rand) Chance(p int) bool       { return r.Intn(100) < p }
+func (r *Rand) Range(lo, hi int) int    { return lo + r.Intn(hi-lo+1) }
 func (r *Rand) Pick(xs []string) string { return xs[r.Intn(len(xs))] }
+func (r *Rand) Pick3(a, b, c int) int {
+	return []int{a, b, c}[r.Intn(3)]
+}
 func (r *Rand) Bytes(n int) []byte {
 	b := make([]byte, n)
 	for i := range b {
@@ -113,11 +116,11 @@ type Violation struct {
 type Out struct {
 	Prop     string
 	Dir      string
-	Imports  string            // e.g. "corr.C14"
-	Preamble string            // extra Coq definitions (cfg ...)
-	Check    string            // e.g. "check_case" or "(check_case cfg)"
-	Oracle   string            // e.g. "oracle_case"
-	Finding  string            // e.g. "finding_case" or ""
+	Imports  string // e.g. "corr.C14"
+	Preamble string // extra Coq definitions (cfg ...)
+	Check    string // e.g. "check_case" or "(check_case cfg)"
+	Oracle   string // e.g. "oracle_case"
+	Finding  string // e.g. "finding_case" or ""
 	terms    []string
 	descs    []interface{}
 	kinds    map[string]int
@@ -127,6 +130,7 @@ type Out struct {
 	Switches map[string]interface{} // finding switch -> {on, witness, observed}
 	Stats    map[string]interface{}
 	Shard    int
+	cur      *os.File
 }
 
 func NewOut(prop, dir string) *Out {
@@ -146,6 +150,23 @@ func (o *Out) Case(kind, term string, desc interface{}) {
 	}
 }
 func (o *Out) N() int { return len(o.terms) }
+
+// Begin records the input about to be run, so that if the library crashes the
+// whole process (a panic on one of its own goroutines cannot be recovered by
+// the harness) the driver still knows which input did it.
+func (o *Out) Begin(desc interface{}) {
+	if o.cur == nil {
+		os.MkdirAll(o.Dir, 0o755)
+		f, err := os.Create(filepath.Join(o.Dir, "current.json"))
+		if err != nil {
+			return
+		}
+		o.cur = f
+	}
+	b, _ := json.Marshal(desc)
+	o.cur.Truncate(0)
+	o.cur.WriteAt(b, 0)
+}
 
 func (o *Out) Violate(what string, input, got, want interface{}) {
 	o.GoViol = append(o.GoViol, Violation{what, input, got, want})
